@@ -22,14 +22,20 @@ def nlist(s):
     return "[" + "; ".join(f"{int(x)}%nat" for x in s) + "]"
 
 
-HEADER = """From Verif Require Import NdIndex Quat RotArr SymDot.
+HEADER = """From Verif Require Import NdIndex Quat RotArr SymDot KField GroupK Groups SymDotK KFloat ITARef.
 Open Scope float_scope.
 Inductive case :=
 | Cdot (U : list (rot (T:=float))) (o1 o2 : quat (T:=float)) (out : float)
-| Couter (U : list (rot (T:=float))) (A B : list (quat (T:=float))) (sa sb shape : list nat) (out : list float).
+| Couter (U : list (rot (T:=float))) (A B : list (quat (T:=float))) (sa sb shape : list nat) (out : list float)
+| Cset (n1 n2 : String.string) (U : list (rot (T:=float))).
+(* the set of symmetry elements the code uses for the pair (self=n1, other=n2), as modelled exactly in K
+   (SymDotK.code_set, the object of the theorems), against the runtime _get_unique_symmetry_elements *)
+Definition gfind (n : String.string) : list krot :=
+  match find (fun g => String.eqb (g_name g) n) groups with Some g => g_elems g | None => [] end.
+Definition fsubset (A B : list (rot (T:=float))) : bool := forallb (fun a => existsb (r_close_pm a) B) A.
 (* Orientation.dot_outer as the code has it: M = other.outer(~self) (shape sb ++ sa), max over U,
-   then transpose with order = range(na, na+nb) ++ range(na) *)
-Definition perm_code (na nb : nat) : list nat := seq na nb ++ seq 0 na.
+   then transpose with order = range(nb, nb+na) ++ range(nb)   (na = self.ndim, nb = other.ndim) *)
+Definition perm_code (na nb : nat) : list nat := seq nb na ++ seq 0 nb.
 Definition transpose_nd {X} (d : X) (perm s : list nat) (l : list X) : list nat * list X :=
   let s' := map (fun k => nth k s 0%nat) perm in
   (s', map (fun k' => let idx' := unravel s' k' in
@@ -46,11 +52,16 @@ Definition ok (c : case) : bool :=
   | Cdot U o1 o2 out => fclose (code_dot FOps U o1 o2) out
   | Couter U A B sa sb shape out =>
       let '(s, l) := dot_outer_model U A B sa sb in shape_eqb s shape && fclose_list l out
+  | Cset n1 n2 U =>
+      let M := map kr2f (if String.eqb n1 n2 then gfind n1 else code_set (gfind n1) (gfind n2)) in
+      fsubset M U && fsubset U M && Nat.eqb (List.length M) (List.length U)
   end.
 """
 
 
 def case_coq(c):
+    if c["k"] == "set":
+        return f'Cset "{c["pair"][0]}" "{c["pair"][1]}" {rots(c["U"])}'
     if c["k"] == "dot":
         return f"Cdot {rots(c['U'])} {q4(c['o1'])} {q4(c['o2'])} {fhex(c['out'])}"
     return (f"Couter {rots(c['U'])} {qs(c['A'])} {qs(c['B'])} {nlist(c['sa'])} {nlist(c['sb'])} "
@@ -70,6 +81,7 @@ def correspond(ck, cases, chunk=60):
         for b in bad:
             c = cases[i + b]
             what = (f"model of Orientation.dot and implementation differ for pair {c.get('pair')}" if c["k"] == "dot"
+                    else f"the exact model (SymDotK.code_set) of the symmetry elements used for pair {c.get('pair')} differs from _get_unique_symmetry_elements at run time" if c["k"] == "set"
                     else f"model of Orientation.dot_outer (incl. its axis transposition) and implementation differ for shapes {c['sa']} x {c['sb']}")
             ck.disagreement(what, {k: v for k, v in c.items() if k != "U"})
 
